@@ -632,6 +632,7 @@ type mpCase struct {
 	Path   string // module path to use
 	Style  int    // 0 bare, 1 quoted, 2 bare + comment, 3 quoted + comment, 4 extra spaces / tabs
 	Before string // text placed before everything
+	At     int    `json:",omitempty"` // the module line follows the first At statements of the file (0: it comes first)
 }
 
 var mpPaths = []string{"example.com/m", "example.com/a/v2", "gopkg.in/yaml.v2", "m", "std/internal", "example.com/Upper", "a.b/c~d", "module", "module.example.com/x", "modules", "example.com/module", "x+y/z", "example.com/m.v2"}
@@ -655,7 +656,11 @@ func genMP(t *rapid.T) mpCase {
 		}
 	}
 	f.Stmts = keep
-	return mpCase{File: f, Path: mpPaths[rapid.IntRange(0, len(mpPaths)-1).Draw(t, "path")], Style: rapid.IntRange(0, 4).Draw(t, "style"), Before: genBefore(t)}
+	c := mpCase{File: f, Path: mpPaths[rapid.IntRange(0, len(mpPaths)-1).Draw(t, "path")], Style: rapid.IntRange(0, 4).Draw(t, "style"), Before: genBefore(t)}
+	if len(f.Stmts) > 0 && gen.Chance(t, 50, "modulelater") {
+		c.At = 1 + gen.Uniform(t, len(f.Stmts), "moduleat") // the module directive may stand anywhere among the statements
+	}
+	return c
 }
 
 // knownShape reports the one recorded disagreement: a block line whose first token is the bare word "module"
@@ -736,6 +741,12 @@ func checkMP(c mpCase) pbt.Result {
 		r.Classes = append(r.Classes, "long line before the module directive")
 	}
 	text := before + line + "\n" + f.Render()
+	if c.At > 0 && c.At <= len(f.Stmts) {
+		head, tail := f, f
+		head.Stmts, head.After, head.NoFinal = f.Stmts[:c.At], nil, false
+		tail.Stmts = f.Stmts[c.At:]
+		text = before + head.Render() + line + "\n" + tail.Render()
+	}
 	if c.File.CRLF {
 		text = strings.ReplaceAll(text, "\n", "\r\n")
 	}
@@ -759,6 +770,12 @@ func genMPRaw(t *rapid.T) textCase {
 	c := genMP(t)
 	f := c.File
 	text := c.Before + "module " + c.Path + "\n" + f.Render()
+	if c.At > 0 && c.At <= len(f.Stmts) {
+		head, tail := f, f
+		head.Stmts, head.After, head.NoFinal = f.Stmts[:c.At], nil, false
+		tail.Stmts = f.Stmts[c.At:]
+		text = c.Before + head.Render() + "module " + c.Path + "\n" + tail.Render()
+	}
 	if knownShape(text) {
 		text = "module " + c.Path + "\n"
 	}
